@@ -67,6 +67,12 @@ def handle (op : String) (a : Json) : Except String Json := do
     let v := judgeObs o
     return Json.mkObj [("all", boolJ v.all), ("range", boolJ v.range), ("symm", boolJ v.symm),
       ("self", boolJ v.self), ("disjoint", boolJ v.disjoint)]
+  | "bounds" =>
+    -- `compute_bounds` / `geometry_to_shapely(g).bounds` in closed form (contract `BoundsExact`)
+    let g ← getGeom (← fld a "g")
+    match g.bounds with
+    | some b => return valJ (boundsJ b)
+    | none => return Json.mkObj [("raise", Json.str "empty")]
   | "iou" =>
     return valJ (ratJ (iouC (← fldRat a "a") (← fldRat a "b") (← fldRat a "i")))
   | "time_iou" =>
